@@ -33,7 +33,10 @@ RULE = ("machine scenario = (main-loop slots, handler slots, initial IMR/ISR/F, 
         "spin loop (thorough: D=3 and D=4) x MTI period {0,2} (thorough D=3: {0,1,2,3}) x initial IMR {00,8F} x handler {RETI, MV (ISR),00; RETI}; sampled part: "
         "seeded random skeletons (NOP/INC/IMR writes/ISR clear/ACK/KIL read/HALT/OFF/WAIT 1..40), handlers (NOP, ISR "
         "clear, ACK, INC (n), OR (IMR),80, MV (IMR),v, KIL read), IMR in 32 mask combinations, ISR nibble, periods "
-        "{0..7,50}, events (key down/up/inject, ON down/up) over 60 boundaries. Non-trivial = at least one delivery, "
+        "{0..7,50} (STI a multiple of MTI in 1/3 of the timed scenarios), events (key down/up/inject, ON down/up) over 60 "
+        "boundaries, IMEM context of the interrupted program (BP/PX/PY zero or non-zero, patterned user RAM, optional "
+        "MV (BP|PX|PY),n slot in main loop or handler), keyboard-interrupt enable on/off; enumerated scenarios take BP "
+        "from {00,10,A5,FF} by a hash of their index. Non-trivial = at least one delivery, "
         "or a pending-but-masked status for >= 2 consecutive boundaries, or a HALT/OFF wake-up; distinct = hash of "
         "(model, scenario).")
 
@@ -42,6 +45,8 @@ ENUM_IMR = (0x00, 0x80, 0x81, 0x84, 0x88, 0x8F)
 KEYS = ("KEY_F1", "KEY_A", "KEY_ENTER")
 IMR_VALUES = tuple(m | b for m in (0x00, 0x80) for b in range(16))
 PERIODS = (0, 0, 1, 2, 3, 4, 5, 6, 7, 50)
+BASES = (0x01, 0x05, 0x10, 0x80, 0xA5, 0xFF)     # non-zero IMEM base pointer / index register values
+ENUM_BP = (0x00, 0x10, 0xA5, 0xFF)               # enumerated scenarios: BP is a hash of the index (not crossed)
 
 ASSUMPTIONS = [
     "delivery position inside a step is model-specific and documented by both step() implementations: Python "
@@ -64,6 +69,18 @@ ASSUMPTIONS = [
     "to be taken while a handler is active",
     "ISR bits 4-6 (UART/external) are not generated; the gate uses IMR & ISR & 0x7F so they would be accepted",
     "a ROM image is always loaded and the stack lives in internal RAM 0xBFF00 downwards (no C11 aliasing)",
+    "'the interrupted program is unaffected' includes its internal memory: the user RAM 00-EB and BP/PX/PY change in "
+    "a step only as the executed template instruction (INC (n), MV (BP|PX|PY),n; all templates use direct (n) "
+    "addressing through PRE 30h) explains, whatever BP/PX/PY hold; host events are not judged on this",
+    "a timer expiry is witnessed by the model's own next-expiry target moving (next_mti/next_sti only move when the "
+    "timer fires, in both models); it must leave its status bit set at the end of that step, except in steps whose "
+    "instruction writes ISR or is RETI (tick/write order differs between the models) or that start or end powered "
+    "off (Rust documents that OFF clears non-ONK status)",
+    "keyboard-interrupt enable (Python: snapshot field kb_irq_enabled restored by load_snapshot, set on the object as "
+    "pce500/tests/test_snapshot_roundtrip.py does; Rust: TimerContext::set_keyboard_irq_enabled): when off, no key "
+    "event may raise ISR.KEYI (Rust unit test 'KEYI should not be asserted when kb_irq_enabled is false', comment in "
+    "write_fifo_to_memory, the Python gates in _tick_timers/_scan_keyboard_per_instruction); a poked or firmware-"
+    "written KEYI bit then carries no HALT-wake obligation (lib.rs documents ignoring it, Python wakes: assert less)",
 ]
 
 
@@ -72,7 +89,7 @@ def enum_alphabet() -> List[Tuple[str, Any]]:
     return [("none", None), ("key", "KEY_F1"), ("on", None)] + [("imr", v) for v in ENUM_IMR] + [("isr", 0)]
 
 
-def enum_scenario(seq: Tuple[int, ...], mti: int, imr0: int, hidx: int, model: str) -> Dict[str, Any]:
+def enum_scenario(seq: Tuple[int, ...], mti: int, imr0: int, hidx: int, model: str, sti: int = 0) -> Dict[str, Any]:
     alpha = enum_alphabet()
     main: List[List[Any]] = []
     events: List[List[Any]] = []
@@ -90,13 +107,15 @@ def enum_scenario(seq: Tuple[int, ...], mti: int, imr0: int, hidx: int, model: s
                 events.append([k, "on_down", None])
     main += [["NOP"], ["NOP"]]
     handler = [[], [["ISR", 0]]][hidx]
-    return {"prog": {"main": main, "handler": handler}, "imr0": imr0, "isr0": 0, "f0": 0x02, "mti": mti, "sti": 0,
+    return {"prog": {"main": main, "handler": handler}, "imr0": imr0, "isr0": 0, "f0": 0x02, "mti": mti, "sti": sti,
             "steps": len(seq) + 12, "events": events}
 
 
-def enum_dims(depth: int, full: bool) -> Tuple[Tuple[int, ...], Tuple[int, ...], Tuple[int, ...]]:
+def enum_dims(depth: int, full: bool) -> Tuple[Tuple[Any, ...], Tuple[int, ...], Tuple[int, ...]]:
     """(MTI periods, initial IMR values, handler indices) crossed with the event sequences."""
-    return ((0, 1, 2, 3) if full else (0, 2)), (0x00, 0x8F), (0, 1)
+    # a timer entry is an MTI period (STI off) or an (MTI, STI) pair; (2, 4): every sub-timer expiry coincides with a
+    # main-timer expiry
+    return ((0, 1, 2, 3, (2, 4)) if full else (0, 2)), (0x00, 0x8F), (0, 1)
 
 
 def enum_count(depth: int, full: bool) -> int:
@@ -117,7 +136,12 @@ def enum_case(idx: int, depth: int, full: bool) -> Dict[str, Any]:
     imr0 = imrs[x % len(imrs)]
     x //= len(imrs)
     hidx = hs[x % len(hs)]
-    return enum_scenario(tuple(seq), mti, imr0, hidx, "")
+    timers = mti if isinstance(mti, tuple) else (mti, 0)
+    sc = enum_scenario(tuple(seq), timers[0], imr0, hidx, "", timers[1])
+    # not crossed with the enumeration: the interrupted program's IMEM frame (base pointer, patterned user RAM)
+    sc["bp0"] = ENUM_BP[mix32(0xC12B, idx, depth) % len(ENUM_BP)]
+    sc["imfill"] = 1
+    return sc
 
 
 def random_scenario(st: Stream) -> Tuple[Dict[str, Any], str]:
@@ -188,6 +212,27 @@ def random_scenario(st: Stream) -> Tuple[Dict[str, Any], str]:
           "ba0": st.word(), "i0": 1 + st.below(20),
           "mti": st.choice(PERIODS), "sti": st.choice(PERIODS) if st.chance(1, 2) else 0,
           "steps": steps, "events": events}
+    # ---- round-2 dimensions; drawn after everything above so that the earlier draws are unchanged
+    # (a) IMEM addressing context of the interrupted program: BP / PX / PY non-zero, patterned user RAM, and
+    #     firmware that sets them up itself (MV (BP|PX|PY),n in the main loop or in the handler)
+    if st.chance(11, 20):
+        sc["bp0"] = st.choice(BASES) if st.chance(3, 4) else st.byte()
+    if st.chance(1, 3):
+        sc["px0"] = st.choice(BASES) if st.chance(1, 2) else st.byte()
+    if st.chance(1, 3):
+        sc["py0"] = st.choice(BASES) if st.chance(1, 2) else st.byte()
+    if st.chance(3, 4):
+        sc["imfill"] = st.below(256)
+    if st.chance(1, 4):
+        main.insert(st.below(len(main) + 1), [st.choice(("BPW", "BPW", "PXW", "PYW")), st.choice(BASES + (0x00,))])
+    if st.chance(1, 8):
+        handler.insert(st.below(len(handler) + 1), [st.choice(("BPW", "BPW", "PXW", "PYW")), st.choice(BASES + (0x00,))])
+    # (b) both timers expiring on the same cycle: sub-timer period a multiple of the main-timer period
+    if sc["mti"] and st.chance(1, 3):
+        sc["sti"] = sc["mti"] * (1 + st.below(4))
+    # (c) the machine's keyboard-interrupt enable as a configuration dimension
+    if st.chance(1, 5):
+        sc["kbirq"] = False
     return sc, skel
 
 
@@ -208,8 +253,11 @@ def verdicts(model: str, sc: Dict[str, Any], run: Dict[str, Any]) -> Tuple[List[
 def summarize(sc: Dict[str, Any]) -> str:
     def slots(xs: List[List[Any]]) -> str:
         return " ".join(s[0] + (f":{s[1]:02X}" if len(s) > 1 else "") for s in xs)
+    extra = "".join(f" {k}={sc[k]:02X}" for k in ("bp0", "px0", "py0") if sc.get(k))
+    if sc.get("kbirq") is False:
+        extra += " kbirq=off"
     return (f"main[{slots(sc['prog']['main'])}] handler[{slots(sc['prog']['handler'])}] imr0={sc['imr0']:02X} "
-            f"isr0={sc['isr0']:02X} mti={sc['mti']} sti={sc['sti']} events={len(sc.get('events', []))}")
+            f"isr0={sc['isr0']:02X} mti={sc['mti']} sti={sc['sti']} events={len(sc.get('events', []))}" + extra)
 
 
 def account(rep: Report, model: str, sc: Dict[str, Any], run: Dict[str, Any], extra_labels: List[str], sample: bool) -> None:
@@ -376,6 +424,12 @@ def shrink(ctx: Ctx, v: Violation) -> Violation:
             if best["sc"].get(field, val) != val:
                 c = clone()
                 c["sc"][field] = val
+                if attempt(c):
+                    changed = True
+        for field in ("px0", "py0", "bp0", "imfill", "kbirq"):
+            if field in best["sc"]:
+                c = clone()
+                del c["sc"][field]
                 if attempt(c):
                     changed = True
     vs = [x for x in replay(ctx, best) if x.key() == key]
